@@ -8,6 +8,7 @@ import (
 	"os/exec"
 	"path/filepath"
 	"regexp"
+	"runtime/debug"
 	"runtime/pprof"
 	"sort"
 	"strconv"
@@ -38,6 +39,7 @@ type InstanceSpec struct {
 	MaxDecisions int             `json:"max_decisions,omitempty"`
 	SchedSymbolic bool           `json:"sched_symbolic,omitempty"`
 	ClockSymbolic bool           `json:"clock_symbolic,omitempty"`
+	ConcSample    bool           `json:"conc_sample,omitempty"`
 	TimeoutS    int              `json:"timeout_s,omitempty"`
 	Skip        []map[string]int `json:"skip,omitempty"` // param combinations to skip
 }
@@ -106,6 +108,7 @@ type instResult struct {
 	funcs       map[string]int
 	samples     []map[string]uint64
 	gspec       *Spec
+	sampled     map[string]int
 	realFiles   map[string]string
 }
 
@@ -119,12 +122,13 @@ var defaultInitAllow = []string{
 	modPath, "errors", "io", "bytes", "strings", "strconv", "unicode", "encoding", "bufio", "sort", "math", "net/textproto", "net/url",
 	"github.com/miekg/dns", "github.com/multiformats", "github.com/mtraver/base91", "go.chromium.org/luci", "fmt", "sync", "time", "slices", "maps",
 	"github.com/pkg/errors", "github.com/hashicorp/go-multierror", "github.com/hashicorp/errwrap", "container", "hash", "path", "regexp", "internal/",
-	"unsafe", "github.com/bokysan", "context", "io/ioutil", "github.com/xtaci/smux", "text/", "html",
+	"unsafe", "github.com/bokysan", "context", "io/ioutil", "github.com/xtaci/smux", "text/", "html", "golang.org/x/net/dns", "golang.org/x/net/webdav",
 }
 
-var initDeny = []string{"encoding/json", "encoding/gob", "encoding/xml", "encoding/asn1", modPath + "/internal/vp", modPath + "/internal/logging", "errors", "reflect", "internal/reflectlite", "internal/abi", "internal/cpu", "internal/godebug", "internal/poll", "internal/syscall", "internal/testlog", "internal/runtime", "time"}
+var initDeny = []string{"golang.org/x/net/webdav/internal", "encoding/json", "encoding/gob", "encoding/xml", "encoding/asn1", modPath + "/internal/vp", modPath + "/internal/logging", "errors", "reflect", "internal/reflectlite", "internal/abi", "internal/cpu", "internal/godebug", "internal/poll", "internal/syscall", "internal/testlog", "internal/runtime", "time"}
 
 func main() {
+	debug.SetGCPercent(400)
 	if len(os.Args) < 2 {
 		fmt.Fprintln(os.Stderr, "usage: gosx run --spec <spec.json> --tier quick|thorough")
 		os.Exit(2)
@@ -445,6 +449,7 @@ func runInstance(l *Loaded, spec *Spec, in instance, stubs map[string]*ssa.Funct
 	}
 	m.schedSymbolicDefault = in.spec.SchedSymbolic
 	m.clockSymbolic = in.spec.ClockSymbolic
+	m.concSample = in.spec.ConcSample
 	entry := l.findFunc(spec.Package, in.entry)
 	if entry == nil {
 		res.inconclusive = append(res.inconclusive, "entry function not found: "+in.entry)
@@ -467,7 +472,11 @@ func runInstance(l *Loaded, spec *Spec, in instance, stubs map[string]*ssa.Funct
 	}
 	// package initialisation (concrete, once)
 	if pe := m.runInit(entry.Pkg); pe.status != "ok" {
-		res.inconclusive = append(res.inconclusive, "package init: "+pe.status+": "+pe.msg)
+		msg := pe.msg
+		if i := strings.Index(msg, "\n"); i > 0 {
+			msg = msg[:i]
+		}
+		res.inconclusive = append(res.inconclusive, "package init: "+pe.status+": "+msg)
 		return
 	}
 	if concreteModel != "" {
@@ -506,6 +515,7 @@ func runInstance(l *Loaded, spec *Spec, in instance, stubs map[string]*ssa.Funct
 		res.funcs[fn.String()] = n
 	}
 	res.samples = m.samples
+	res.sampled = m.sampledSites
 	return
 }
 
@@ -610,6 +620,7 @@ func finish(spec *Spec, tier string, seed int, evidencePath string, start time.T
 	funcs := map[string]int{}
 	reach := map[string]int{}
 	asserts := map[string]int{}
+	sampledSites := map[string]int{}
 	var samples []interface{}
 	perInst := []map[string]interface{}{}
 	for _, r := range results {
@@ -630,6 +641,9 @@ func finish(spec *Spec, tier string, seed int, evidencePath string, start time.T
 		}
 		for k, n := range r.asserts {
 			asserts[k] += n
+		}
+		for k, n := range r.sampled {
+			sampledSites[k] += n
 		}
 		for _, msg := range r.inconclusive {
 			inconcl = append(inconcl, r.inst.String()+": "+msg)
@@ -728,6 +742,7 @@ func finish(spec *Spec, tier string, seed int, evidencePath string, start time.T
 			"crosscheck":                    map[string]interface{}{"solver": xsolverKind, "verdict_queries": totalXQ, "time_s": round2(xsolverT.Seconds())},
 			"assertions_checked":            asserts,
 			"vacuity_witnesses":             reach,
+			"value_enumeration_capped_at":   sampledSites,
 			"bounds":                        spec.Bounds,
 			"scaled_constants":              allConsts(spec),
 			"stubs":                         allStubs(spec),
